@@ -1,5 +1,324 @@
-"""Replay of simulator steps (shared by C01, C04, C14, C18).  Filled in with FlowStep.tla."""
+"""Replay of simulator time steps (shared by C01, C04, C14, C18).
+
+TLC (spec/FlowStep.tla) produces admissible states, the exact vorticity pipeline result and the
+symbolic list of velocity-recovery stages; this module loads the states into the REAL simulator
+classes (public API only: arrays, `time_step`), poisons every scratch / work buffer, and compares
+with an independent reference of the recovery stages built from documented closed forms."""
+from __future__ import annotations
+
+import functools
+import math
+
+import numpy as np
+
+from . import core, shim, tlc
+from .c03 import green
+
+RAW = {"Vals": "-3..3", "UVals": "-2..2"}
+_SIMS: dict = {}
+_DAMP: dict = {}
 
 
+# ------------------------------------------------------------------------------------------------
+def config_consts(cfg):
+    """cfg (python) -> constants of FlowStep.tla.  All prefactors must come out as integers:
+    PA = dt/h, PR = dt/(2h), PF = dt/(2 h rho), PD = nu dt/h^2; the model's Dt is dt/h."""
+    sim = cfg["sim"]
+    h = cfg.get("h", 1.0)
+    dt = cfg.get("dt", 2.0 * h)
+    rho = cfg.get("rho", 1.0)
+    nu = cfg.get("nu", 0.5 * h)
+
+    def as_int(x, what):
+        if abs(x - round(x)) > 1e-12 or round(x) == 0 and what != "PF":
+            raise core.MachineryError(f"configuration {cfg}: {what} = {x} is not a non-zero integer")
+        return int(round(x))
+
+    c = {
+        "Sim": sim, "Forcing": cfg.get("forcing", False), "FreeStream": cfg.get("free_stream", False),
+        "FilterType": cfg.get("filter", "off"), "FilterOrder": cfg.get("order", 1), "ZoneWidth": cfg.get("w", 2),
+        "Dt": as_int(dt / h, "Dt"), "PF": as_int(dt / (2 * h * rho), "PF") if cfg.get("forcing", False) else 1,
+        "PA": as_int(dt / h, "PA"), "PD": as_int(nu * dt / h**2, "PD"), "PR": as_int(dt / (2 * h), "PR"),
+        "Margin": cfg.get("margin", 0), "NoTies": cfg.get("noties", False), "Shape": list(cfg["shape"]),
+    }
+    return c
+
+
+def emit_steps(chk, cfg, num, seed, name=None, inv=True):
+    body = "SPECIFICATION Spec\n" + ("INVARIANT Realises\nINVARIANT Conserved\nINVARIANT NoHiddenState\n" if inv else "") + "ACTION_CONSTRAINT EmitDone\n"
+    steps_per = 30 if cfg["sim"] == "ns3" else 16
+    res = tlc.run_wrapped("FlowStep", config_consts(cfg), body, raw=RAW, mode="simulate", simulate={"num": 1, "depth": steps_per * num + 2}, seed=seed, timeout=2400)
+    chk.add_tlc(name or f"FlowStep {cfg}", res)
+    return res.emits
+
+
+# ------------------------------------------------------------------------------------------------
+def damp_maps(chk, shape, w):
+    """(src, fac) of the boundary damping for (shape, w), from spec/MC_Stabilisers.tla."""
+    key = (tuple(shape), w)
+    if key not in _DAMP:
+        if w == 0:
+            _DAMP[key] = None
+        else:
+            consts = {"ChiDen": 4, "Lambdas": {0}, "FilterMargin": 1, "Shape": list(shape), "Kinds": {"damp"}, "Widths": {w}, "Orders": {1}}
+            res = tlc.run_wrapped("MC_Stabilisers", consts, "SPECIFICATION Spec\nINVARIANT DampLaws\nCONSTRAINT EmitState\n", raw={"FVals": "{0}"}, workers=1, timeout=900)
+            chk.add_tlc(f"damp map {shape} w={w}", res)
+            e = res.emits[0]
+            src = np.array(e["src"]) - 1
+            fac = np.ones(tuple(shape))
+            for c in np.ndindex(tuple(shape)):
+                f = e["fac"]
+                for i in c:
+                    f = f[i]
+                for j in f:
+                    fac[c] *= math.sin(math.pi / 2 * j / w)
+            _DAMP[key] = (src, fac)
+    return _DAMP[key]
+
+
+def apply_damp(f, maps):
+    if maps is None:
+        return f.copy()
+    src, fac = maps
+    idx = tuple(src[..., a] for a in range(f.ndim))
+    return f[idx] * fac
+
+
+@functools.lru_cache(maxsize=None)
+def green_matrix(shape, h):
+    cells = list(np.ndindex(shape))
+    D = len(shape)
+    n = len(cells)
+    K = np.empty((n, n))
+    for i, ci in enumerate(cells):
+        for j, cj in enumerate(cells):
+            K[i, j] = green(tuple(abs(a - b) for a, b in zip(ci, cj)), h, D) * h**D
+    return K
+
+
+@functools.lru_cache(maxsize=None)
+def neumann_pinv(shape, h):
+    """pseudo-inverse of the documented Neumann negative Laplacian (dense, independent of the solver)."""
+    def lap1(n):
+        A = 2 * np.eye(n) - np.eye(n, k=1) - np.eye(n, k=-1)
+        A[0, 0] = A[-1, -1] = 1
+        return A / h**2
+    mats = [lap1(n) for n in shape]
+    n = int(np.prod(shape))
+    A = np.zeros((n, n))
+    for a, M in enumerate(mats):
+        left = np.eye(int(np.prod(shape[:a]))) if a > 0 else np.eye(1)
+        right = np.eye(int(np.prod(shape[a + 1:]))) if a < len(shape) - 1 else np.eye(1)
+        A += np.kron(np.kron(left, M), right)
+    return np.linalg.pinv(A, hermitian=True)
+
+
+def ref_solve(om, h, solver):
+    shape = om.shape
+    if solver == "fast_diagonalisation":
+        P = neumann_pinv(shape, h)
+        f = om.reshape(-1) - om.mean()
+        return (P @ f).reshape(shape)
+    return (green_matrix(shape, h) @ om.reshape(-1)).reshape(shape)
+
+
+def cd(a, axis):
+    out = np.zeros_like(a)
+    sl_c = [slice(None)] * a.ndim
+    hi = [slice(None)] * a.ndim
+    lo = [slice(None)] * a.ndim
+    sl_c[axis] = slice(1, -1)
+    hi[axis] = slice(2, None)
+    lo[axis] = slice(0, -2)
+    out[tuple(sl_c)] = a[tuple(hi)] - a[tuple(lo)]
+    return out
+
+
+def ring_zero(a):
+    b = np.zeros_like(a)
+    inner = tuple(slice(1, -1) for _ in range(a.ndim))
+    b[inner] = a[inner]
+    return b
+
+
+def ref_velocity(om_damped, h, solver, U):
+    """documented recovery: psi = solve(omega); u = curl(psi) / (2h) with ring reset; + free stream."""
+    D = om_damped[0].ndim
+    if D == 2:
+        psi = ref_solve(om_damped[0], h, "greens")
+        u = np.stack([ring_zero(cd(psi, 0)), ring_zero(-cd(psi, 1))]) / (2 * h)   # (d psi/dy, -d psi/dx); y = axis 0
+    else:
+        psi = [ref_solve(om_damped[k], h, solver) for k in range(3)]
+        ax = {1: 2, 2: 1, 3: 0}  # physical axis -> array axis
+        def d(f, k):
+            return cd(f, ax[k])
+        u = np.stack([
+            ring_zero(d(psi[2], 2) - d(psi[1], 3)),
+            ring_zero(d(psi[0], 3) - d(psi[2], 1)),
+            ring_zero(d(psi[1], 1) - d(psi[0], 2)),
+        ]) / (2 * h)
+    return u + np.array(U).reshape((D,) + (1,) * D)
+
+
+# ------------------------------------------------------------------------------------------------
+def cfg_nu(cfg):
+    return cfg.get("nu", 0.5 * cfg.get("h", 1.0))
+
+
+def cfg_dt(cfg):
+    return cfg.get("dt", 2.0 * cfg.get("h", 1.0))
+
+
+def get_sim(cfg, real_t):
+    import sopht.simulator as sps
+
+    key = (cfg["sim"], tuple(cfg["shape"]), cfg.get("forcing", False), cfg.get("free_stream", False), cfg.get("filter", "off"),
+           cfg.get("order", 1), cfg.get("w", 2), cfg.get("solver", "greens_function_convolution"), cfg.get("rho", 1.0), cfg_nu(cfg),
+           cfg.get("h", 1.0), real_t, cfg.get("threads", 1))
+    if key not in _SIMS:
+        shape = tuple(cfg["shape"])
+        xr = float(shape[-1]) * cfg.get("h", 1.0)
+        if cfg["sim"] == "ns2":
+            s = sps.UnboundedNavierStokesFlowSimulator2D(
+                grid_size=shape, x_range=xr, kinematic_viscosity=cfg_nu(cfg), real_t=real_t, with_forcing=cfg.get("forcing", False),
+                with_free_stream_flow=cfg.get("free_stream", False), flow_density=cfg.get("rho", 1.0), penalty_zone_width=cfg.get("w", 2),
+                num_threads=cfg.get("threads", 1))
+        elif cfg["sim"] == "ns3":
+            kw = {}
+            if cfg.get("filter", "off") != "off":
+                kw = {"filter_vorticity": True, "filter_setting_dict": {"order": cfg.get("order", 1), "type": cfg["filter"]}}
+            s = sps.UnboundedNavierStokesFlowSimulator3D(
+                grid_size=shape, x_range=xr, kinematic_viscosity=cfg_nu(cfg), real_t=real_t, with_forcing=cfg.get("forcing", False),
+                with_free_stream_flow=cfg.get("free_stream", False), flow_density=cfg.get("rho", 1.0), penalty_zone_width=cfg.get("w", 2),
+                poisson_solver_type=cfg.get("solver", "greens_function_convolution"), num_threads=cfg.get("threads", 1), **kw)
+        else:
+            s = sps.PassiveTransportFlowSimulator(
+                kinematic_viscosity=cfg_nu(cfg), grid_dim=len(shape), grid_size=shape, x_range=xr, real_t=real_t,
+                field_type="scalar" if cfg["sim"] == "pt_scalar" else "vector", num_threads=cfg.get("threads", 1))
+        _SIMS[key] = s
+    return _SIMS[key]
+
+
+def poison_scratch(sim, rng):
+    """every scratch array / solver work buffer holds garbage before the step (the model's havoc)."""
+    for name in ("buffer_scalar_field", "buffer_vector_field", "stream_func_field"):
+        a = getattr(sim, name, None)
+        if a is not None:
+            a[...] = rng.normal(size=a.shape) * 1e3
+    sol = getattr(sim, "_unbounded_poisson_solver", None)
+    if sol is not None:
+        for name in ("domain_doubled_buffer", "spectral_field_buffer"):
+            a = getattr(sol, name, None)
+            if a is not None:
+                a[...] = rng.normal(size=a.shape) * 1e3
+        for name in ("convolution_buffer", "domain_doubled_fourier_buffer"):
+            a = getattr(sol, name, None)
+            if a is not None:
+                a[...] = (rng.normal(size=a.shape) * 1e3).astype(a.dtype)
+
+
+def load_state(sim, cfg, e, real_t):
+    om0 = np.array(e["om0"], dtype=real_t)
+    primary = "vorticity_field" if cfg["sim"] in ("ns2", "ns3") else "primary_field"
+    tgt = getattr(sim, primary)
+    tgt[...] = om0[0] if tgt.ndim == len(cfg["shape"]) else om0
+    sim.velocity_field[...] = np.array(e["vel0"], dtype=real_t)
+    if cfg.get("forcing", False):
+        sim.eul_grid_forcing_field[...] = np.array(e["frc0"], dtype=real_t)
+    sim.time = float(e["time0"])
+    return primary
+
+
+def run_step(sim, cfg, U):
+    Dt = cfg_dt(cfg)
+    if cfg["sim"] in ("ns2", "ns3"):
+        if cfg.get("free_stream", False):
+            sim.time_step(dt=float(Dt), free_stream_velocity=np.array(U, dtype=float))
+        else:
+            sim.time_step(dt=float(Dt))
+    else:
+        sim.time_step(dt=float(Dt))
+
+
+def replay_step(chk, cfg, e, real_t, rng):
+    """-> list of error texts."""
+    shim.set_backend("compile")
+    sim = get_sim(cfg, real_t)
+    D = len(cfg["shape"])
+    h = cfg.get("h", 1.0)
+    U = [1.5, -0.5, 0.25][:D]
+    primary = load_state(sim, cfg, e, real_t)
+    poison_scratch(sim, rng)
+    vel0 = sim.velocity_field.copy()
+    run_step(sim, cfg, U)
+    errs = []
+    eps = 1e-11 if real_t == np.float64 else 2e-4
+    om_spec = np.array(e["om"], dtype=float) / e["scale"]
+    mag = max(1.0, np.abs(om_spec).max())
+    isns = cfg["sim"] in ("ns2", "ns3")
+    want_om = np.stack([apply_damp(om_spec[k], damp_maps(chk, cfg["shape"], cfg.get("w", 2))) for k in range(om_spec.shape[0])]) if isns else om_spec
+    got = getattr(sim, primary).astype(float)
+    got = got[None] if got.ndim == D else got
+    if not np.all(np.isfinite(got)):
+        errs.append("non-finite vorticity / primary field")
+    elif np.abs(got - want_om).max() > eps * mag:
+        c = np.unravel_index(np.argmax(np.abs(got - want_om)), got.shape)
+        errs.append(f"{primary} differs from the documented pipeline by {np.abs(got - want_om).max():.3g} at {c} (code {got[c]}, reference {want_om[c]})")
+    if float(sim.time) != float(e["time0"]) + cfg_dt(cfg) or (e["time"] - e["time0"]) * h != cfg_dt(cfg):
+        errs.append(f"time = {sim.time!r}, expected {e['time0']} + {cfg_dt(cfg)}")
+    if abs(float(sim.dx) - h) > 0:
+        raise core.MachineryError(f"simulator spacing {sim.dx} != configured {h}")
+    if isns:
+        if cfg.get("forcing", False) and np.any(sim.eul_grid_forcing_field != 0):
+            errs.append("body-forcing field is not identically zero on return")
+        want_u = ref_velocity(want_om, h, cfg.get("solver", "greens_function_convolution"), U if cfg.get("free_stream", False) else [0.0] * D)
+        du = np.abs(sim.velocity_field.astype(float) - want_u).max()
+        umag = max(1.0, np.abs(want_u).max())
+        if not du <= 50 * eps * umag:
+            c = np.unravel_index(np.argmax(np.abs(sim.velocity_field.astype(float) - want_u)), want_u.shape)
+            errs.append(f"velocity differs from curl(solve(omega)) + free stream by {du:.3g} at {c} (code {sim.velocity_field[c]}, reference {want_u[c]})")
+    else:
+        if not np.array_equal(sim.velocity_field, vel0):
+            errs.append("passive transport modified the velocity field")
+    return errs
+
+
+# ------------------------------------------------------------------------------------------------
 def conservation_replay(chk):
-    chk.notes.append("step-level conservation replay not built yet")
+    """C04 step level: compactly supported states through the real simulators; grid sums on their own arrays.
+    The post-step support must also stay out of the damping zone: margin = max(model margin, w + growth)."""
+    quick = chk.tier == "quick"
+    rng = np.random.default_rng(chk.seed + 11)
+    cfgs = [
+        {"sim": "ns2", "shape": (15, 16), "forcing": True, "free_stream": True, "w": 2, "margin": 6},
+        {"sim": "pt_scalar", "shape": (12, 13), "margin": 4},
+        {"sim": "ns3", "shape": (11, 11, 12), "forcing": True, "w": 2, "margin": 5},
+    ]
+    if not quick:
+        cfgs += [{"sim": "ns3", "shape": (11, 12, 12), "forcing": True, "filter": "multiplicative", "order": 1, "w": 2, "margin": 5},
+                 {"sim": "pt_vector", "shape": (10, 10, 11), "margin": 4},{"sim": "ns3", "shape": (13, 13, 12), "forcing": False, "filter": "convolution", "order": 2, "w": 1, "margin": 5},
+                 {"sim": "ns2", "shape": (14, 14), "forcing": False, "w": 4, "margin": 7}]
+        cfgs = cfgs + []
+    for cfg in cfgs:
+        for e in emit_steps(chk, cfg, 2 if quick else 6, chk.seed, name=f"FlowStep conservation {cfg['sim']} margin {cfg['margin']}"):
+            for real_t in (np.float64,):
+                sim = get_sim(cfg, real_t)
+                primary = load_state(sim, cfg, e, real_t)
+                poison_scratch(sim, rng)
+                before = getattr(sim, primary).astype(float)
+                run_step(sim, cfg, [1.5, -0.5, 0.25][: len(cfg["shape"])])
+                after = getattr(sim, primary).astype(float)
+                D = len(cfg["shape"])
+                b = before.reshape((-1,) + before.shape[-D:]).reshape(before.size // int(np.prod(cfg["shape"])), -1).sum(axis=1)
+                a = after.reshape(b.size, -1).sum(axis=1)
+                l1 = np.abs(before).sum() + np.abs(np.array(e["frc0"])).sum() + 1
+                chk.traces += 1
+                chk.count(("step_sum", cfg["sim"], tlc.canon(e["om0"])[:64]))
+                if np.abs(a - b).max() > 1e-11 * l1 * 50:
+                    chk.violation({"kind": "step_sum", "sim": cfg["sim"]},
+                                  f"{cfg}: grid sum of {primary} changed from {b} to {a} in one step of a compactly supported state")
+    # the model's own margins: too small a margin must be refuted
+    bad = {"sim": "pt_scalar", "shape": (10, 10), "margin": 3}
+    res = tlc.run_wrapped("FlowStep", config_consts(bad), "SPECIFICATION Spec\nINVARIANT Conserved\n", raw=RAW, mode="simulate",
+                          simulate={"num": 30, "depth": 16}, seed=chk.seed, timeout=600)
+    chk.add_tlc("control step-level margin 3 (ENO3 needs 4)", res, expect_violation="Conserved")
